@@ -1,7 +1,7 @@
 (* C06 — No input makes a decoder or a follow-up operation panic or hang.
    Statements only (copied from coq/theories by bin/mkprops); each proof is `exact <lemma>`. *)
 From Coq Require Import Ascii String ZArith List Bool Permutation.
-From GoCose Require Import Bytes Cbor CborProofs Res GoVal Obs Ecdsa Fx Headers Enc Dec Msg HashEnv Key SigVer Run TbsProofs FlowProofs DecProofs KeyProofs NoPanic MoreProofs.
+From GoCose Require Import Bytes Cbor CborProofs Res GoVal Obs Ecdsa Fx Headers Enc Dec Msg HashEnv Key SigVer Run TbsProofs FlowProofs DecProofs KeyProofs NoPanic MoreProofs SignNoPanic.
 From GoCose.Gen Require Import Generated.
 Import ListNotations.
 Open Scope Z_scope.
@@ -105,3 +105,60 @@ Theorem C06_verify_countersign0_never_panics :
   vf_total vf -> fst (verify_countersign0 vf t e sig) <> Panic.
 Proof. exact verify_countersign0_never_panics. Qed.
 Print Assumptions C06_verify_countersign0_never_panics.
+
+(* the producing follow-ups: Sign never reaches a panic site, for every message value, header content, external data and signer answer (bytes, error, or both) *)
+Theorem C06_sign1_sign_never_panics :
+  forall m ext sg,
+  out_res (sign1_sign m ext sg) <> Panic.
+Proof. exact sign1_sign_never_panics. Qed.
+Print Assumptions C06_sign1_sign_never_panics.
+
+(* COSE_Sign: the signer list is length-checked before it is indexed *)
+Theorem C06_signmsg_sign_never_panics :
+  forall m ext sgs,
+  out_res (signmsg_sign m ext sgs) <> Panic.
+Proof. exact signmsg_sign_never_panics. Qed.
+Print Assumptions C06_signmsg_sign_never_panics.
+
+Theorem C06_csig_sign_never_panics :
+  forall s sg t e,
+  out_res (csig_sign s sg t e) <> Panic.
+Proof. exact csig_sign_never_panics. Qed.
+Print Assumptions C06_csig_sign_never_panics.
+
+Theorem C06_countersign0_never_panics :
+  forall sg t e,
+  fst (countersign0 sg t e) <> Panic.
+Proof. exact countersign0_never_panics. Qed.
+Print Assumptions C06_countersign0_never_panics.
+
+(* cose.Sign1 / cose.Sign1Untagged *)
+Theorem C06_helper_sign1_never_panics :
+  forall tagged h p e sg,
+  fst (fst (helper_sign1 tagged h p e sg)) <> Panic.
+Proof. exact helper_sign1_never_panics. Qed.
+Print Assumptions C06_helper_sign1_never_panics.
+
+(* SignHashEnvelope *)
+Theorem C06_sign_he_never_panics :
+  forall sg h p,
+  fst (sign_he sg h p) <> Panic.
+Proof. exact sign_he_never_panics. Qed.
+Print Assumptions C06_sign_he_never_panics.
+
+(* VerifyHashEnvelope on arbitrary bytes, unless the caller's verifier panics *)
+Theorem C06_verify_he_never_panics :
+  forall vf envelope,
+  vf_total vf -> fst (verify_he vf envelope) <> Panic.
+Proof. exact verify_he_never_panics. Qed.
+Print Assumptions C06_verify_he_never_panics.
+
+Theorem C06_sign_flows_reach_the_signer :
+  let sg := mkSigner (-7) (fun _ => SOk (Some [1; 2])) in
+  let h := mkH None (Some [GInt KInt64 1; GInt KAlg (-7)]) None None in
+  out_res (sign1_sign (mkS1 h (Some [112]) None) None sg) = Acc tt /\
+  out_res (signmsg_sign (mkSM (mkH None None None None) (Some [112]) [Some (mkSig h None); Some (mkSig h None)]) None [sg; sg]) = Acc tt /\
+  out_res (csig_sign (mkSig h None) sg (PSign1 (mkS1 h (Some [112]) (Some [9]))) None) = Acc tt /\
+  fst (countersign0 sg (PSign1 (mkS1 h (Some [112]) (Some [9]))) None) = Acc (Some [1; 2]).
+Proof. exact sign_flows_reach_the_signer. Qed.
+Print Assumptions C06_sign_flows_reach_the_signer.
